@@ -223,5 +223,33 @@ def oracles(ctx, deep):
             add(Violation("global-streams-untouched", "%s (%s): a seeded call changes the global numpy / torch / python random state" % (cfg[0], cfg[1]), {"config": c}, {"generator": cfg[0], "kind": "globals"}))
         if not rec["private_restored"]:
             add(Violation("private-stream-restored", "%s (%s): a seeded call does not restore the generator's private stream" % (cfg[0], cfg[1]), {"config": c}, {"generator": cfg[0], "kind": "private"}))
+    # the seed may arrive positionally (`f(shape, return_acs, seed)`) or by a direct call of the public `mask_func`:
+    # the mask is the same function of (shape, seed) however the arguments are spelled, on fresh and on used instances
+    import torch
+
+    rng = ctx.rng
+    for name in G.ALL:
+        for rep in range(ctx.n(1, 3)):
+            cfg = G.random_config(rng, names=[name], small=True)
+            _, mode, shape, accel, cf = cfg
+            seed = rng.randrange(10**6)
+            c = {"generator": name, "mode": mode, "shape": shape, "acceleration": accel, "center_fraction": cf, "seed": seed}
+            for acs in (False, True):
+                runs += 1
+                ref = G.call(G.build(name, accel, cf, mode), shape, seed, acs, seconds=8)
+                if ref[0] != "ok":
+                    continue
+                used = G.build(name, accel, cf, mode)
+                G.call(used, shape, rng.randrange(10**6), False, seconds=8)
+                spellings = (("fresh instance, f(shape, return_acs, seed)", lambda: G.build(name, accel, cf, mode)(shape, acs, seed)),
+                             ("fresh instance, f.mask_func(shape, return_acs, seed)", lambda: G.build(name, accel, cf, mode).mask_func(shape, acs, seed)),
+                             ("fresh instance, f.mask_func(shape, return_acs=..., seed=...)", lambda: G.build(name, accel, cf, mode).mask_func(shape, return_acs=acs, seed=seed)),
+                             ("used instance, f(shape, return_acs, seed)", lambda: used(shape, acs, seed)))
+                for how, fn in spellings:
+                    r = G.guarded(fn, 8)
+                    if r[0] == "ok" and (r[1].shape != ref[1].shape or not bool(torch.equal(r[1], ref[1]))):
+                        add(Violation("seeded-reproducible", "%s (%s): the %s for seed %d differs from f(shape, return_acs=..., seed=...) of a fresh instance when called as: %s" % (name, mode, "ACS mask" if acs else "sampling mask", seed, how), {"config": c, "return_acs": acs, "call": how}, {"generator": name, "kind": "argument-spelling", "how": how.split(",")[1].strip()}))
+                    elif r[0] == "raises":
+                        add(Violation("seeded-reproducible", "%s (%s): %s raises %s where the keyword call returns a mask" % (name, mode, how, r[1]), {"config": c, "return_acs": acs, "call": how}, {"generator": name, "kind": "argument-spelling-raises"}))
     ctx.oracle_runs = runs
     return out
